@@ -243,6 +243,23 @@ fn cmd_replay(get: &dyn Fn(&str) -> Option<String>) -> i32 {
     for vi in &o.violations {
         println!("  -> {} {} {}: {}", vi.property, vi.clause, vi.kind, vi.detail);
     }
+    if exp["clause"].as_str() == Some("outcome_not_reproducible") {
+        let mut digests = vec![outcome_digest(&o)];
+        let mut any = !o.violations.is_empty();
+        for _ in 0..7 {
+            let o2 = exec_isolated(check, &run);
+            any |= !o2.violations.is_empty();
+            digests.push(outcome_digest(&o2));
+        }
+        let differ = digests.iter().any(|d| *d != digests[0]);
+        if any || differ {
+            println!("  -> outcomes of 8 executions differ: {differ}; some execution violated a clause: {any}");
+            println!("VIOLATION property={prop} replay={path}");
+            return 1;
+        }
+        println!("replay did not reproduce the recorded violation");
+        return 0;
+    }
     let hit = o.violations.iter().any(|vi| {
         Some(vi.property.as_str()) == exp["property"].as_str()
             && Some(vi.clause.as_str()) == exp["clause"].as_str()
@@ -424,8 +441,27 @@ fn cmd_run(get: &dyn Fn(&str) -> Option<String>) -> i32 {
         let confirm = exec_isolated(check, &run);
         let class = v.class();
         if !confirm.violations.iter().any(|x| x.class() == class) {
-            eprintln!("HARNESS ERROR: violation did not reproduce on re-execution: {:?}", v);
-            exit = 2;
+            if prop == "C20" {
+                // for the reproducibility property an outcome that changes between two executions
+                // of the same explicit run IS the violation
+                let fv = Violation {
+                    property: "C20".into(),
+                    clause: "outcome_not_reproducible".into(),
+                    kind: "mismatch".into(),
+                    sig: "outcome_not_reproducible".into(),
+                    triggers: vec![],
+                    detail: format!("the same explicit run gave '{}' once and another outcome when executed again", v.detail.chars().take(300).collect::<String>()),
+                    at_op: 0,
+                };
+                let path = write_replay(&replay_dir, &prop, &config, &run, &fv, run.ops.len(), 0);
+                println!("violation: {} {} {}: {}", fv.property, fv.clause, fv.kind, fv.detail);
+                println!("VIOLATION property={} replay={}", prop, path);
+                violation_json = json!({"violation": fv.to_json(), "replay": path, "seed": run.seed});
+                exit = 1;
+            } else {
+                eprintln!("HARNESS ERROR: violation did not reproduce on re-execution: {:?}", v);
+                exit = 2;
+            }
         } else {
             let budget = if tier == Tier::Quick { (1500, 40) } else { (6000, 180) };
             let (min_run, execs) = minimise(check, &run, &class, &known, budget.0, budget.1);
@@ -464,8 +500,19 @@ fn cmd_run(get: &dyn Fn(&str) -> Option<String>) -> i32 {
             println!("known finding {id} matched {n} runs in this part");
         }
     }
-    if det_mismatch.is_some() {
-        exit = 2;
+    if let Some(m) = &det_mismatch {
+        if prop == "C20" && exit == 0 {
+            println!("violation: C20 outcome_not_reproducible: {m}");
+            exit = 1;
+            let i: u64 = m.split_whitespace().nth(2).and_then(|x| x.parse().ok()).unwrap_or(0);
+            let run = gen_run(check, seed, i, tier);
+            let fv = Violation { property: "C20".into(), clause: "outcome_not_reproducible".into(), kind: "mismatch".into(), sig: "outcome_not_reproducible".into(), triggers: vec![], detail: m.clone(), at_op: 0 };
+            let path = write_replay(&replay_dir, &prop, &config, &run, &fv, run.ops.len(), 0);
+            println!("VIOLATION property={} replay={}", prop, path);
+            violation_json = json!({"violation": fv.to_json(), "replay": path, "seed": run.seed});
+        } else if exit == 0 {
+            exit = 2;
+        }
     }
 
     let wall = start.elapsed().as_secs_f64();
